@@ -154,14 +154,15 @@ def _run_with_bins(res, tier, seed, priv):
     vlib.log("c15: binaries ready")
 
     # ---- controlled schedules
-    rc, o, d = _run_harness(bins["c15"], ["-seed", str(seed), "-tier", tier, "-mode", "ctl"], 3000)
+    hto = 900 if tier == "quick" else 4000
+    rc, o, d = _run_harness(bins["c15"], ["-seed", str(seed), "-tier", tier, "-mode", "ctl"], hto)
     if rc != 0 or "cases.v" not in d:
         res.violation(None, "harness crashed (controlled mode)", {"kind": "harness-crash", "rc": rc, "output": o[-4000:]}, no_input=True)
         return res.finish()
     ctl_cases = json.loads(d["cases.json"])["ctl"]
     csum = json.loads(d["summary.json"])
     # ---- free-running histories under the race detector
-    rrc, ro, rd = _run_harness(rbins["c15"], ["-seed", str(seed), "-tier", tier, "-mode", "free"], 6000)
+    rrc, ro, rd = _run_harness(rbins["c15"], ["-seed", str(seed), "-tier", tier, "-mode", "free"], hto)
     free_cases = json.loads(rd["cases.json"])["free"] if "cases.json" in rd else []
     fsum = json.loads(rd["summary.json"]) if "summary.json" in rd else {}
 
@@ -179,8 +180,8 @@ def _run_with_bins(res, tier, seed, priv):
         "rule": RULE,
         "samples": csum.get("samples", []) + [{"free_history_events": len(free_cases[0]["Events"]), "first_events": free_cases[0]["Events"][:12]}] if free_cases else csum.get("samples", []),
         "traces_validated_against_impl": len(ctl_cases),
-        "controlled": {k: csum.get(k) for k in ("ctl", "ops", "max_ops", "racing", "settle_timeouts", "panics", "op_kinds")},
-        "free": {k: fsum.get(k) for k in ("free", "events", "hangs", "panics")},
+        "controlled": {k: csum.get(k) for k in ("ctl", "planned", "ops", "max_ops", "racing", "settle_timeouts", "panics", "op_kinds")},
+        "free": {k: fsum.get(k) for k in ("free", "planned", "events", "hangs", "panics")},
         "race_detector": {"exit": rrc, "data_race_reported": "DATA RACE" in ro},
         "late_worker_replay": csum.get("late_worker_replay"),
         "cases_file": path1,
@@ -219,6 +220,10 @@ def _run_with_bins(res, tier, seed, priv):
     _report_oracle(res, "controlled", cv["Cctl"], ctl_cases, lambda c: ": " + " ; ".join(c["Ops"]))
     _report_oracle(res, "free", fv["Cfree"], free_cases, lambda c: ", %d events" % len(c["Events"]))
     res.coverage["disagreements"] = {"model": len(cv["Mctl"]), "oracle_controlled": len(cv["Cctl"]), "oracle_free": len(fv["Cfree"])}
+    if not res.violations and not res.known and (csum.get("ctl", 0) < csum.get("planned", 0) or fsum.get("free", 0) < fsum.get("planned", 0)):
+        res.violation(None, "the harness used up its time budget before running every case (%s/%s controlled, %s/%s free)" %
+                      (csum.get("ctl"), csum.get("planned"), fsum.get("free"), fsum.get("planned")),
+                      {"kind": "harness-budget"}, no_input=True)
     # 4. only model/implementation disagreement
     if not res.violations and not res.known and cv["Mctl"]:
         i = min(cv["Mctl"], key=lambda k: len(ctl_cases[k]["Ops"]))
